@@ -1,13 +1,71 @@
-(* C17/Properties.v — property theorems only. Each is closed by a lemma of C17/Proofs.v. *)
-From Relic Require Import Base.Prelude Base.Enc Generated.C17_gen C17.Model C17.Proofs.
+(* C17/Properties.v — property theorems only. Each is closed by a lemma of C17/Proofs.v or C17/ProofsCD.v. *)
+From Relic Require Import Base.Prelude Base.Enc Generated.C17_gen C17.Model C17.Bytes C17.Proofs C17.ProofsCD.
+
+(* 0. the Go wire structs have the APPNOTE field layouts and the length constants match them *)
+Theorem wire_layouts_are_appnote :
+  lfh_widths = apn_lfh_widths /\ cdh_widths = apn_cdh_widths /\ e64_widths = apn_e64_widths /\
+  l64_widths = apn_l64_widths /\ eocd_widths = apn_eocd_widths /\
+  dd_widths = [4; 4; 4; 4] /\ dd64_widths = [4; 4; 8; 8] /\ z64x_widths = [2; 2; 8; 8; 8] /\
+  cdh_size = directoryHeaderLen /\ lfh_size = fileHeaderLen /\ eocd_size = directoryEndLen /\
+  l64_size = directory64LocLen /\ e64_size = directory64EndLen /\ dd_size = dataDescriptorLen /\ dd64_size = dataDescriptor64Len.
+Proof. exact C17.Proofs.layouts_are_appnote. Qed.
 
 (* 1. GetTotalSize / readLocalHeader / readDataDesc on an APPNOTE-built local entry located anywhere in an archive, in
       random-access and in streaming mode: the whole-entry length, the descriptor width and the CRC are the true ones,
-      and the streaming cursor never passes the end of the entry.  Domain (local_ok): descriptor absent, 16 bytes with
-      signature, or 24 bytes with signature and dd24_ok (for compressed sizes below 4 GiB: uncompressed size <> 0). *)
+      and the streaming cursor never passes the end of the entry.  Domain local_ok: descriptor absent, 16 bytes with
+      signature (not: empty member with version-needed >= 45), or 24 bytes with signature (empty member: version-needed >= 45). *)
 Theorem member_size_correct : forall md m pre post f pos,
   local_ok m -> e_offset f = zlen pre -> e_csize f = sp_csize m -> e_usize f = m_usize m -> e_crc f = m_crc m ->
   zlen pre + zlen (sp_local m) < 2 ^ 63 -> pos <= zlen pre ->
   exists pos', total_size md (rd_bytes (pre ++ sp_local m ++ post)) pos f = Ok (sized_of m, pos')
                /\ pos' <= zlen pre + zlen (sp_local m).
 Proof. exact C17.Proofs.total_size_local. Qed.
+
+(* 2. a whole run of members, one pass, random access or streaming: no seek-back, every size right *)
+Theorem all_member_sizes_correct : forall md ms fs pre post pos,
+  Forall local_ok ms -> placed (zlen pre) ms fs -> zlen pre + zlen (locals ms) < 2 ^ 63 -> pos <= zlen pre ->
+  total_sizes md (rd_bytes (pre ++ locals ms ++ post)) pos fs = Ok (map sized_of ms).
+Proof. exact C17.Proofs.total_sizes_locals. Qed.
+
+(* 3. the ZIP64 extra record of an APPNOTE-built central entry is decoded correctly for EVERY saturation mask *)
+Theorem zip64_extra_decoded : forall m off,
+  central_ok m off ->
+  let u0 := if sat_u m then A_M32 else m_usize m in
+  let c0 := if sat_c m then A_M32 else sp_csize m in
+  let o0 := if sat_o m off then A_M32 else off in
+  let st := z64_scan (length (sp_cextra m off)) (sp_cextra m off) (rwd_need_u u0) (mkZ u0 c0 o0 (rwd_need_c c0) (rwd_need_o o0)) in
+  z_usize st = m_usize m /\ z_csize st = sp_csize m /\ z_offset st = off /\ z_need_c st = false /\ z_need_o st = false.
+Proof. exact C17.ProofsCD.z64_scan_central. Qed.
+
+(* 4. FindDirectory on APPNOTE end records: plain, shorter than 42 bytes (empty archive), and with ZIP64 records whatever
+      mix of saturated and plain fields the end record holds *)
+Theorem find_directory_plain : forall x count cdsize cdoff,
+  20 <= zlen x -> 0 <= count < 65535 -> 0 <= cdsize < 4294967295 -> 0 <= cdoff < 4294967295 ->
+  find_directory (rd_bytes (x ++ eocd_of count cdsize cdoff)) (zlen (x ++ eocd_of count cdsize cdoff)) = Ok cdoff.
+Proof. exact C17.Proofs.find_directory_plain. Qed.
+Theorem find_directory_short : forall x count cdsize cdoff,
+  zlen x < 20 -> 0 <= count < 65535 -> 0 <= cdsize < 4294967295 -> 0 <= cdoff < 4294967295 ->
+  find_directory (rd_bytes (x ++ eocd_of count cdsize cdoff)) (zlen (x ++ eocd_of count cdsize cdoff)) = Ok cdoff.
+Proof. exact C17.Proofs.find_directory_short. Qed.
+Theorem find_directory_zip64 : forall x cr rd count cdsize cdoff c16 s32 o32,
+  zlen x = cdoff + cdsize -> 0 <= cdoff -> 0 <= cdsize -> cdoff + cdsize < 2 ^ 63 ->
+  0 <= c16 < 65536 -> 0 <= s32 < 4294967296 -> 0 <= o32 < 4294967296 ->
+  (fd_is_zip64 c16 s32 o32 = false -> o32 = cdoff) ->
+  let z := x ++ e64_of cr rd count cdsize cdoff ++ l64_of (cdoff + cdsize) ++ eocd_of c16 s32 o32 in
+  find_directory (rd_bytes z) (zlen z) = Ok cdoff.
+Proof. exact C17.Proofs.find_directory_zip64. Qed.
+
+(* 5. parse (build ms) = ms on class K, the re-emission identity, both access modes: for every member list in class K and
+      every ZIP64-end style (0 only when needed, 1 always / all fields saturated, 2 always / plain fields), relic's Read of
+      the APPNOTE-built archive yields exactly the members (names, offsets, sizes, CRCs, extra, comment, raw bytes),
+      DirLoc is the end of the member data, GetTotalSize of every member is the true entry length in random-access AND in
+      streaming mode, the combined view equals the specification's view, and GetOriginalDirectory(false) returns byte for
+      byte the original directory and end records *)
+Theorem parse_build : forall ms mode, classK ms mode ->
+  let z := build ms (plain_opts mode) in
+  exists d, read_zip (rd_bytes z) (zlen z) = Ok d
+    /\ d_files d = parsed (pairs ms) /\ d_dirloc d = zlen (locals ms)
+    /\ (forall md, total_sizes md (rd_bytes z) 0 (d_files d) = Ok (map sized_of ms))
+    /\ views (d_files d) (map sized_of ms) = sp_view ms (plain_opts mode)
+    /\ exists cd eod, get_original (rd_bytes z) d false = Ok (cd, eod) /\ cd ++ eod = zdrop (zlen (locals ms)) z.
+Proof. exact C17.ProofsCD.parse_build_thm. Qed.
